@@ -21,10 +21,16 @@ JBool(b) == [t |-> "bool", mem |-> <<>>, s |-> <<>>, n |-> 0, b |-> b, items |->
 JNull == [t |-> "null", mem |-> <<>>, s |-> <<>>, n |-> 0, b |-> FALSE, items |-> <<>>]
 JArr(items) == [t |-> "arr", mem |-> <<>>, s |-> <<>>, n |-> 0, b |-> FALSE, items |-> items]
 JObj(mem) == [t |-> "obj", mem |-> mem, s |-> <<>>, n |-> 0, b |-> FALSE, items |-> <<>>]
+\* a JSON number that is not an integer of the Matrix range (1: 1.5, 2: 2^53 + 1): equal to no scalar
+JFloat(n) == [t |-> "float", mem |-> <<>>, s |-> <<>>, n |-> n, b |-> FALSE, items |-> <<>>]
 
 X == <<120>>
 Keys == {<<97>>, <<97, 46, 98>>, <<97, 92, 98>>, <<98>>, <<46>>}     \* a  a.b  a\b  b  .
-Leaves == {JStr(X), JStr(<<>>), JInt(1), JBool(TRUE), JNull, JArr(<<JStr(X), JInt(1)>>), JArr(<<>>), JObj(<<>>)}
+Leaves == {JStr(X), JStr(<<>>), JInt(1), JBool(TRUE), JNull, JArr(<<JStr(X), JInt(1)>>), JArr(<<>>), JObj(<<>>),
+           \* arrays holding elements that are not scalars next to the scalars searched for
+           JArr(<<JStr(X), JObj(<<>>)>>), JArr(<<JObj(<<[k |-> <<98>>, v |-> JStr(X)]>>), JInt(1), JNull>>),
+           JArr(<<JArr(<<JStr(X)>>), JBool(TRUE)>>), JArr(<<JFloat(1), JStr(X)>>), JArr(<<JInt(1), JFloat(2)>>), JArr(<<JArr(<<>>)>>),
+           JFloat(1)}
 Obj1 == {JObj(<<[k |-> k1, v |-> l]>>) : k1 \in Keys, l \in Leaves}
         \cup {JObj(<<[k |-> kk[1], v |-> l1], [k |-> kk[2], v |-> l2]>>) :
                  kk \in {q \in Keys \X Keys : q[1] # q[2]}, l1 \in {JStr(X), JInt(1)}, l2 \in {JStr(X), JObj(<<>>)}}
@@ -77,6 +83,7 @@ CJ(v) == CASE v.t = "obj" -> [o |-> [i \in 1..Len(v.mem) |-> [k |-> v.mem[i].k, 
            [] v.t = "int" -> [i |-> v.n]
            [] v.t = "bool" -> [b |-> v.b]
            [] v.t = "null" -> [z |-> 0]
+           [] v.t = "float" -> [f |-> v.n]
            [] v.t = "arr" -> [a |-> [i \in 1..Len(v.items) |-> CJ(v.items[i])]]
            [] OTHER -> [absent |-> 1]
 
